@@ -1,10 +1,11 @@
 (* C06 — TTL and context travel through Failover as documented.
 
    Model: theories/Failover.v (TTL cell of the caller's context, builder updates as an oracle list,
-   refresh write in a context of its own); proofs: theories/FailoverTTL.v. What the model cannot carry
-   (cancellation and deadline of the detached background context, context values) is observed by the
-   correspondence run only: see the level note of the check. *)
-From Cache Require Import Base Failover FailoverProofs FailoverProv FailoverTTL.
+   refresh write in a context of its own); proofs: theories/FailoverTTL.v. The context of the builder
+   (cancellation, deadline, Done channel and values of the caller's context chain, the library's
+   detachedContext as a layer of its own) is modelled in theories/Ctx.v; proofs: theories/CtxProofs.v. The
+   standard library's WithCancel / WithDeadline / WithValue are modelled by their documented contract. *)
+From Cache Require Import Base Failover FailoverProofs FailoverProv FailoverTTL Ctx CtxProofs.
 
 (* WithTTL(ctx, ttl, true) repeated: the cell ends up 0 iff everything was 0, otherwise it holds one of
    the communicated values, the smallest non-zero one (negative values included) *)
@@ -56,6 +57,37 @@ Theorem C06_skip_still_stores : forall fe nilb c s t o s' th v,
   exists th', threads s' !! t = Some th' /\ t_pc th' = PBuildWrite /\ t_res th' = (v, None) /\ t_skip th' = t_skip th.
 Proof. exact skip_still_stores. Qed.
 Print Assumptions C06_skip_still_stores.
+
+(* a background build runs under a context that exposes the caller's context values but is neither cancelled
+   nor deadlined by it: for every caller context (any chain of values, cancel functions and deadlines), every
+   set of cancel functions already called, every instant, and under any further value layers *)
+Theorem C06_detached_context : forall caller p cancelled now,
+  value_only p = true ->
+  ctx_err cancelled now (p ++ builder_ctx true caller) = None /\
+  ctx_done_nil (p ++ builder_ctx true caller) = true /\
+  ctx_deadline (p ++ builder_ctx true caller) = None /\
+  (forall k, ctx_value k (builder_ctx true caller) = ctx_value k caller).
+Proof. exact detached_never_cancelled. Qed.
+Print Assumptions C06_detached_context.
+
+(* in the caller's own context a cancellation is permanent (so the statement above is not vacuous: the
+   caller's context does report the error the detached one suppresses) *)
+Theorem C06_cancellation_is_permanent : forall c cancelled cancelled' now now',
+  (forall y, mem_n y cancelled = true -> mem_n y cancelled' = true) -> now <= now' ->
+  ctx_err cancelled now c <> None -> ctx_err cancelled' now' c <> None.
+Proof. exact ctx_err_monotone. Qed.
+Print Assumptions C06_cancellation_is_permanent.
+
+(* an observation of a builder's context on which implementation and model agree satisfies the property *)
+Theorem C06_context_observation : forall o, ctxobs_agree o = true -> ctxobs_prop o = true.
+Proof. exact agree_implies_prop. Qed.
+Print Assumptions C06_context_observation.
+
+Example C06_detached_nonvacuous :
+  let caller := [LValue 2 1; LDeadline 50; LCancel 7; LValue 1 7]%N in
+  (ctx_err [7%N] 100 caller, ctx_err [7%N] 100 (builder_ctx true caller), ctx_value 1 (builder_ctx true caller))
+  = (Some Canceled, None, Some 7%N).
+Proof. vm_compute. reflexivity. Qed.
 
 (* non-vacuity: caller TTL 100, the builder communicates 0, 300, 40, 70: the value is stored with 40 *)
 Example C06_lowered :
